@@ -121,17 +121,24 @@ def run_kani_unit(unit, harnesses, jobs, workdir):
     # overall limit: the harness timeouts in waves of `jobs`, plus build time
     waves = (len(harnesses) + jobs - 1) // jobs
     overall = 1800 + tmo * waves
-    try:
-        p = subprocess.run(cmd, cwd=crate_dir, env=env, stdout=subprocess.PIPE,
-                           stderr=subprocess.STDOUT, text=True, timeout=overall)
-        out = p.stdout
-    except subprocess.TimeoutExpired as e:
-        out = (e.stdout or "") if isinstance(e.stdout, str) else (e.stdout or b"").decode("utf-8", "replace")
+    logp = os.path.join(workdir, f"kani-{unit['id']}.log")
+    timed_out = False
+    with open(logp, "w") as lf:  # streamed, so a long unit can be followed with tail -f
+        proc = subprocess.Popen(cmd, cwd=crate_dir, env=env, stdout=lf, stderr=subprocess.STDOUT,
+                                start_new_session=True)
+        try:
+            proc.wait(timeout=overall)
+        except subprocess.TimeoutExpired:
+            timed_out = True
+            try:
+                os.killpg(proc.pid, 15)
+            except OSError:
+                pass
+            proc.wait()
+    out = read(logp)
+    if timed_out:
         out += "\n[vcheck] overall timeout\n"
-        subprocess.run(["pkill", "-x", "cbmc"])
     wall = time.time() - t0
-    with open(os.path.join(workdir, f"kani-{unit['id']}.log"), "w") as f:
-        f.write(out)
     results = {}
     if not os.path.exists(export):
         return results, out, " ".join(cmd), True, wall
@@ -223,7 +230,7 @@ def playback(unit, h, prop, failed, workdir):
     test_src, out = "", ""
     try:
         p = subprocess.run(cmd, cwd=crate_dir, env=env, stdout=subprocess.PIPE,
-                           stderr=subprocess.STDOUT, text=True, timeout=h.get("timeout", 900) + 1200)
+                           stderr=subprocess.STDOUT, text=True, timeout=min(h.get("timeout", 900) + 600, 2400))
         out = p.stdout
         m = re.search(r"```\n(.*?)```", out, re.S)
         if m:
@@ -324,6 +331,8 @@ def main():
             undecided.append("lost anchor: " + "; ".join(lost))
             continue
         fns_under_contract += unit.get("functions", [])
+        if unit["engine"] == "verus" and args.only and not re.search(args.only, unit["id"]):
+            continue
         if unit["engine"] == "verus":
             r = verus_engine.run_unit(unit, prop, args.tier, workdir, REPO, VERIF)
             cmds.append(r["cmd"])
